@@ -66,6 +66,23 @@ CLAIMS = {
             'state never depends on the raw argument; ratio guards (100 when L=0, hold when G+L=0).',
             'Trusted: as C02. Not decided: 100−100/(1+G/L) ≡ 100G/(G+L), ±1/negation corollaries, rounding residue.',
             'DESIGN.md §5 C05', 'E5/E3'),
+    'C12': ('other', 'static analysis: homogeneity-degree type inference over the value graph (fixpoint over state cells)',
+            'Positive-scaling clause: every operation of the 28 tabled views is degree-consistent and the output degree is the tabled one, '
+            'so x -> a·x (a > 0) multiplies the output by a^degree and leaves every branch unchanged in real arithmetic (bit-exactly for a a power of two).',
+            'Trusted: typing rules in sfa/e_typing.py, degree table from the property. One reviewed exception: Vst std=0 -> x (the statement\'s own degenerate case). '
+            'Offset invariance and negation symmetry are NOT decided.',
+            'DESIGN.md §5 C12', 'E5'),
+    'C10': ('proof', 'static analysis: linearity type inference (ZERO/COEF/LIN/TOP) over the value graph + data-dependent-branch census',
+            'Proof of linearity over the reals for the 8 linear views: all floats are linear forms with input-independent coefficients, no affine term, '
+            'no data-dependent comparison; structural induction gives superposition for all streams, scalars and N. Window-average members additionally have the '
+            'exact-window/mirrored-accumulator structure that gives DC gain 1.',
+            'Trusted: typing rules; real arithmetic (the f64 "up to rounding" half is not decided). DC gain of the recursive members is covered numerically in C09/C11 when claimed.',
+            'DESIGN.md §5 C10', 'E4'),
+    'C04': ('other', 'static analysis: linearity typing (no data-dependent branch) + window/accumulator rules + convex-update term matching',
+            'Sma/Ema/Alma: no data-dependent branch, exact window, mirrored sum/weight aggregates, Ema x·w+e·(1−w) with w = alpha/(N+1) ∈ (0,1] and '
+            'data-independent seed, Alma centre/width expressions and positive stored weights — which imply the interval, constant, monotonicity and affine clauses over the reals.',
+            'Trusted: as C02/C10. Not decided: the Gaussian kernel values over the live window; rounding.',
+            'DESIGN.md §5 C04', 'E4/E5'),
 }
 
 NOT_APPLICABLE = {
